@@ -34,4 +34,16 @@ DRIVERS = {
         "level_text": "Every reachable combination of (existing matching cgroups, tagged cgroups, per-instance pause/suspension) within the depth bound is visited with all scripted plugin answers; each matching cgroup must be evaluated exactly once per tick with itself as ruleset cgroup and action target, keep its plugin instances while it exists at every tick, get never-seen-before instances after an absent tick, receive prerun every tick, and pause/suspend independently; discards must be ASan-clean.",
         "level_note": "Trusted: scripted plugins, simulated cgroupfs on tmpfs (real glob(3), real xattrs), reference model. Evaluation order among matching cgroups and instant re-creation inside one step are left open.",
     },
+    "C01": {
+        "sources": COMMON + ["props/c01.cpp"], "level": "exploration", "engine": "E1",
+        "technique": "bounded-exhaustive enumeration of (tree, population, plugin, pattern, flags, kill outcomes, history) scenarios executed on the real kill plugins over an interposed kill/xattr/write boundary; effect-log monitor",
+        "level_text": "The complete product of the scenario axes listed in evidence.rule is executed wet against the real kill path (getAndTryToKillPids streaming, retry loop with virtual sleeps, cached-children recursion, reap, kernelkill); every kill(2), xattr write, control-file write and pidfd syscall oomd issues is observed at the libc boundary and checked for containment. A universal negative over the enumerated family, not over all trees.",
+        "level_note": "Trusted: the harness is libc for kill/setxattr/write/syscall (seccomp blocks a real SYS_kill as second guard); world model of cgroup.procs/cgroup.kill semantics; independent component-wise glob matcher.",
+    },
+    "C03": {
+        "sources": COMMON + ["props/c03.cpp"], "level": "exploration", "engine": "E1",
+        "technique": "choice-point enumeration (full product / deviation-bounded) of per-node attribute assignments executed on the real kill plugins; observed victim attempt sequence checked for membership in the set produced by a reference search with open ties",
+        "level_text": "Every attribute assignment within the stated bound is executed wet on the real plugins; the sequence of attacked cgroups (kill-uuid xattr writes) of each invocation must be one the reference DFS can produce, which decides preference-over-metric, prefer-wins, oom.group, no-descent-without-recursive, unpopulated-skip, fallback/backtracking and stop-at-first-success together.",
+        "level_note": "Trusted: effect log at the libc boundary, world model, reference search written from docs/core_plugins.md. Ties (equal preference and metric) are left open.",
+    },
 }
